@@ -580,7 +580,8 @@ fn clean_step(n: usize) {
     kani::assume(wf_g(&st, &g));
     let pending = st.clean();
     let h = ghost(&st);
-    assert!(pending.len() == g.inflight as usize, "C02,C07 clean.count_matches_inflight");
+    // everything unacknowledged, plus the publish parked on an id collision (accepted, never transmitted)
+    assert!(pending.len() == g.inflight as usize + if g.collision.some { 1 } else { 0 }, "C02,C07 clean.count_matches_inflight_plus_parked");
     let mut j = 0usize;
     while j < TMAX {
         if j > n {
@@ -590,7 +591,8 @@ fn clean_step(n: usize) {
         j += 1;
     }
     assert!(h.inflight == 0, "C07 clean.inflight_reset");
-    assert!(h.collision == g.collision, "C02 clean.parked_publish_not_dropped");
+    // C07: a collision is only ever pending while the colliding id is genuinely held; after clean() no id is held
+    assert!(!h.collision.some, "C07 clean.no_collision_left_pending");
     assert!(!st.await_pingresp && st.collision_ping_count == 0, "C18 clean.ping_state_reset");
     assert!(st.incoming_pub.count_ones(..) == 0, "C10 clean.incoming_qos2_ids_forgotten");
     assert!(h.last_pkid == g.last_pkid, "C07 clean.pkid_counter_kept");
